@@ -137,6 +137,8 @@ type Gen struct {
 	loopHeadState map[*ssa.BasicBlock]*State
 	rangeVisited map[*ssa.Range]string
 	frameDone bool
+	inputReads []inputRead
+	rets      []retRecord
 	frameAll  bool
 	frameLocs []frameLoc
 }
